@@ -94,6 +94,19 @@ def check_case(rec, case):
             if not o.ok:
                 report_failure(rec, o, 'cfg_cyk_matrix', grammar=cf.show(RG), word=w)
                 break
+    # the same questions with verbose=True (the trace is printed; the answers are judged by the same contracts)
+    for w in words[-4:] + words[:2]:
+        with common.captured():
+            o = call(ca.cfg_accepts_word, G, w, True)
+        if not o.ok:
+            report_failure(rec, o, 'cfg_accepts_word', grammar=cf.show(RG), word=w, verbose=True)
+            break
+        if is_cnf and w:
+            with common.captured():
+                o = call(ca.cfg_cyk_matrix, G, w, True)
+            if not o.ok:
+                report_failure(rec, o, 'cfg_cyk_matrix', grammar=cf.show(RG), word=w, verbose=True)
+                break
     if case.get('requery') and len(RG[2]) >= 2:
         # the same grammar OBJECT after an in-place change (a rule dropped, the start variable moved)
         G.R.pop()
@@ -226,6 +239,9 @@ def gen_cases(rec, rng, tier):
         yield {'cls': 'composite_start_name', 'ref': cfgg.composite_start_name(rng, RG), 'n': 4}
         RG = cfgg.random_cnf(rng, rng.randint(2, 5), rng.randint(1, 6), nt=rng.randint(1, 2))
         yield {'cls': 'composite_start_name', 'ref': cfgg.composite_start_name(rng, RG), 'n': 4}
+        # a variable (the start variable or another one) whose name is the empty string: legal for a grammar built through the API
+        RG = cfgg.cnf_shape_with_inner_epsilon(rng) if rng.random() < 0.6 else cfgg.random_cnf(rng, rng.randint(2, 4), rng.randint(1, 5), nt=2)
+        yield {'cls': 'empty_string_variable_name', 'ref': cfgg.rename_vars(RG, {(RG[3] if rng.random() < 0.6 else rng.choice(RG[0])): ''}), 'n': 4}
     for _ in range(120 if thorough else 8):
         yield {'cls': 'unit_cycles', 'ref': cfgg.unit_cycle_grammar(rng), 'n': 3, 'via_chomsky': True}
         yield {'cls': 'redundant_cnf', 'ref': cfgg.redundant_cnf(rng), 'n': 5}
